@@ -9,8 +9,9 @@ func init() { Registry["C13"] = runC13 }
 // runC13: table writer / reader.  Generator and oracles live in verif/harness/wp/c13.
 func runC13(c *Ctx) {
 	c.Res.Rule = "random strictly increasing key/value sets (empty table, single entry, long shared prefixes, empty values, entries larger than a block) " +
-		"× block size 64…4096 × restart interval 1…16 × filter none/bloom(1,10,16) × filter base 2^4…2^11, no compression, written by the real table.Writer; " +
-		"the file bytes are compared with the Lean model's Table.write byte for byte; Find / filtered Find / FindKey / Get / OffsetOf / full and range " +
+		"× block size 64…4096 × restart interval 1…16 × filter none/bloom(1,10,16) × filter base 2^4…2^11, written by the real table.Writer, two thirds without compression (the file bytes are compared with the Lean model's " +
+		"Table.write byte for byte) and one third with Snappy compression (reader side only: the model decodes the compressed blocks); " +
+		"hand-built, encoder-made and damaged Snappy block streams are decoded by snappy.Decode and by the model; Find / filtered Find / FindKey / Get / OffsetOf / full and range " +
 		"iteration on table.Reader (with and without block cache + buffer pool) are compared with the model run on the same bytes; small tables get " +
 		"every (or sampled) single-byte alteration inside checksummed blocks: answers must be original pairs or corruption, never a panic; " +
 		"Go-only oracles: round trip, backward iteration, monotone offsets, cached = uncached. Non-trivial = multi-block or filtered table; distinct by case seed."
@@ -24,6 +25,10 @@ func runC13(c *Ctx) {
 	c.Res.CountN("tables", "with-filter", st.WithFilter)
 	c.Res.CountN("tables", "over-20kB", st.Big)
 	c.Res.CountN("tables", "damaged-files", st.Damaged)
+	c.Res.CountN("tables", "snappy-compressed", st.Compressed)
+	c.Res.CountN("ops", "compressed-blocks-read-by-model", st.CompressedBlocks)
+	c.Res.CountN("ops", "snappy-streams", st.SnappyStreams)
+	c.Res.CountN("ops", "snappy-streams-rejected", st.SnappyBad)
 	c.Res.CountN("ops", "read-ops", st.ReadOps)
 	c.Res.CountN("ops", "damage-checks", st.DamageOps)
 }
